@@ -238,6 +238,11 @@ class Engine(
                     # a SQL UNION or UNION ALL, and we trust the user's intent
                     # in putting those upstream of this operation, so we also
                     # add a nested subquery here.
+                    if select.has_sort and not select.has_slice:
+                        # ... but a Sort without a Slice must stay in the outer
+                        # query, or the subquery would silently drop the order.
+                        subquery = select.reapply_skip(sort=None)
+                        return Select.apply_skip(operation._finish_apply(subquery), sort=select.sort)
                     return Select.apply_skip(operation._finish_apply(select))
                 elif tag in select.skip_to.columns:
                     # A column with this tag exists upstream of the Select's
@@ -320,6 +325,12 @@ class Engine(
                     # a SQL UNION or UNION ALL, and we trust the user's intent
                     # in putting those upstream of this operation, so we also
                     # add a nested subquery here.
+                    if select.has_sort:
+                        # ... but a Sort (there is no Slice here) must stay in
+                        # the outer query, or the subquery would silently drop
+                        # the order.
+                        subquery = select.reapply_skip(sort=None)
+                        return Select.apply_skip(operation._finish_apply(subquery), sort=select.sort)
                     return Select.apply_skip(operation._finish_apply(select))
                 else:
                     return select.reapply_skip(after=operation)
